@@ -14,7 +14,7 @@ CHECKS = {
     "C17": ("5 C17", "real save / load code (pandas, json, joblib, scratch directory) on objects with all-distinct symbolic fields tunnelled as "
                      "unique tokens: ProcessModel from all four generators x 3 modes x {binary, JSON} (N = 2, thorough 3), DiffusionCurve x 3 "
                      "modes x 2 bases x 3 units, PervaporationFunction (binary + JSON), Conditions (JSON): every persisted field, unit / basis "
-                     "conversion on load, None <-> NaN, lengths; save histories with a stubbed clock incl. forced directory-name collisions "
+                     "conversion on load (also for a model held in SI / GPU), None <-> NaN, series lengths (per-step permeate condition included), a second save / load generation of the re-loaded model, a model without initial conditions; save histories with a stubbed clock incl. forced directory-name collisions "
                      "(earlier directories byte-identical)"),
     "C20": ("5 C20", "frame condition: 15 modelling entry points executed on shared symbolic argument objects (real Membrane with symbolic "
                      "experiments, mixture, curve set, conditions, permeances, measurements); deep snapshot (identities, fields, lengths, numpy "
@@ -27,7 +27,7 @@ CHECKS = {
                      "error on caller data, best-of over 4 (thorough 9) VLE methods, value and scaling formulas up to order 2 (thorough 3)"),
     "C05": ("5 C05", "two non-ideal process models (N = 3, thorough 4) and the non-ideal curve with the best-fit search as a recording stub "
                      "returning symbolic coefficient arrays, 1 and 2 curves, with / without initial permeances (kg, SI, GPU), both initial bases: search called "
-                     "once per component on that component's measurements; returned fits = search results or their Arrhenius re-scaling "
+                     "once per component on that component's measurements; self-cooling and a temperature programme; returned fits = search results or their Arrhenius re-scaling "
                      "(exp-normal form + EXP congruence); permeances[k] = fit(x_k | x_(k-1), T_k) x step-0 factor"),
     "C06": ("5 C06", "relational: run vs relabelled twin in one exploration.  Activity models for real (NRTL fully symbolic, UNIQUAC per built-in "
                      "mixture; ln gamma compared as rational functions; UNIQUAC asymmetry is a characterised known finding); flux solver with the "
@@ -35,7 +35,7 @@ CHECKS = {
                      "process models (N = 2, thorough 3) over identity-keyed uninterpreted thermodynamics; separation factor / selectivity invert"),
     "C19": ("5 C19", "12 driving-force entry points executed with both permeate temperature and pressure symbolic and everything else symbolic "
                      "(N = 1 step / point; thorough also 2): every leaf raises a repository exception; 9 incomplete-specification classes "
-                     "likewise; vacuity twins with valid specifications must return"),
+                     "likewise (activity-model classes also at the pure ends; a CSV with an empty activation-energy cell as labelled concrete points); vacuity twins with valid specifications must return"),
     "C12": ("5 C12", "Membrane.get_permeance / calculate_activation_energy with n = 1..3 (thorough 4) symbolic experiments per component in any "
                      "order and unit, energy stated / stated per experiment / mixed stated-unstated / regressed (lstsq by its normal equations): Arrhenius factor of the "
                      "nearest experiment, measured value at experiment temperatures, regression recovers E on a line, independence of the "
@@ -45,37 +45,37 @@ CHECKS = {
                      "model) + solver-found 2-cycles of the permeate-pressure map replayed on the real code under a counting wrapper; every "
                      "other `while` / recursion in the package is reported as unanalysed"),
     "C09": ("5 C09", "driving-force function at a symbolic self-consistent permeate composed with the real DiffusionCurve constructor "
-                     "(3 modes x 2 feed bases): reported permeances = the ones used; curve from permeances (alone, or together with fluxes) in kg/SI/GPU: exposure in kg units, "
+                     "(3 modes x 2 feed bases x {NRTL, UNIQUAC}): reported permeances = the ones used; curve from permeances (alone, or together with fluxes) in kg/SI/GPU, also with different units per point and per component: exposure in kg units, "
                      "fluxes = P x feed pressure, re-inversion; the permeate-pressure basis mismatch is a characterised known finding"),
     "C07": ("5 C07", "relational: each entry point run with Composition(x_of_w(w), molar) and Composition(w, weight) in one exploration "
                      "(flux solver + helpers + one-point curve and metrics with the real loop, K = 1 (thorough 2); four process models N = 2 "
                      "(thorough 3) with step-wise lemma chaining; non-ideal curve; measurement extraction from molar vs mass-fraction curves)"),
     "C08": ("5 C08", "relational: standalone flux calculation vs permeate-composition / separation-factor helpers vs one-point ideal curve on "
                      "one symbolic question (3 modes x 2 models x 2 feed bases, real flux loop K = 1 (thorough 2), gamma-UFs keyed by model); "
-                     "process level: recorded arguments of every flux call equal the reported state, derived metrics of ProcessModel / DiffusionCurve"),
+                     "the one-point curve reports the membrane's permeances under either model; process level (also under a temperature programme): recorded arguments of every flux call equal the reported state, an ideal model's reported permeances are the membrane's at the step temperature, derived metrics of ProcessModel / DiffusionCurve"),
     "C11": ("5 C11", "relational: each process model run twice in one exploration with (kA, k m0) and (kA, dt/k), N = 3 steps (thorough 2..4), "
                      "callees as uninterpreted functions with Ackermann congruence, per-step state named and equalities chained as lemmas; "
                      "step-0 flux question must not mention A, m0, dt (free-variable check on the recorded argument terms)"),
     "C18": ("5 C18", "process models with the real validator and guards forking, flux function arbitrary, N = 2 (thorough 2,3): on every "
-                     "returning leaf no reported state can be inadmissible (feed mass, temperature, fractions); replay with coarse real runs"),
+                     "returning leaf no reported state can be inadmissible (feed mass, temperature, fractions); replay with coarse real runs; non-finite floats (overflowing programmes, deep-cooling scans ending in inf / nan) as labelled concrete points"),
     "C01": ("5 C01", "4 process models x 3 permeate modes x {mass, mole} initial basis x programme kinds x curve-set shapes, N = 1,3 steps "
                      "(thorough 1..5) with the flux solver / permeance / heats / best-fit search as arbitrary functions: series lengths, "
                      "time grid, initial state, reported fluxes, total and first-component balance per step; plus concrete real-code runs at step lengths that are not exact in binary (float time grid)"),
     "C03": ("5 C03", "same lifted process runs: evaporation heat = sum of permeated mass x own latent heat per kg, self-cooling update, "
                      "programme value at k dt (3 programme kinds with 5 symbolic coefficients, real TemperatureProgram code), isothermal constancy, condensation heat "
-                     "reported iff a permeate temperature is given, isothermal/non-isothermal twin at step 0 (relational, congruence)"),
+                     "reported iff a permeate temperature is given, series start at the stated temperature, isothermal/non-isothermal twin at step 0 -- fluxes, evaporation and condensation heat, also with a programme on the non-isothermal side (relational, congruence)"),
     "C02": ("5 C02", "flux solver unrolled to K loop iterations (quick 2, thorough 4) for 3 permeate modes x 2 activity models, activity "
                      "coefficients and saturation pressures as uninterpreted functions: law at a self-consistent iterate, vacuum / zero-pressure "
                      "/ fixed-pressure identities, permeance scaling (relational, with congruence)"),
     "C04": ("5 C04", "Gibbs-Duhem as a division-free polynomial non-vanishing query after symbolic differentiation of the executed ln gamma "
                      "(NRTL fully symbolic, 4 parameter shapes; UNIQUAC with exact component constants of the 8 built-in mixtures, their relabelled twins and 2 synthetic q'=q sets), pure limits, "
-                     "Raoult, partial-pressure law and basis independence; the UNIQUAC gamma_2 defect is a characterised known finding"),
+                     "Raoult, partial-pressure law and basis independence (of the partial pressures and of the activity-coefficient function itself); the UNIQUAC gamma_2 defect is a characterised known finding"),
     "C13": ("5 C13", "unbounded: Clausius-Clapeyron for Antoine and Frost with symbolic constants (symbolic d/dT of the executed ln P), "
                      "cooling-heat additivity / antisymmetry / zero / derivative identities"),
     "C14": ("5 C14", "all 9 unit pairs and 27 triples with symbolic value, scale and molar mass: factor, linearity, identity, round trip, "
                      "path independence, constants; every leaf of missing-component / unknown-unit calls raises; value clamp"),
     "C15": ("5 C15", "unbounded: round trip, end points, sum, monotonicity, ratio law as rational identities in (p, q, M1, M2) on the executed "
-                     "conversion code; rejection outside [0,1] on every leaf of the real validator"),
+                     "conversion code; one object converted for two mixtures; rejection outside [0,1] on every leaf of the real validator (nan / inf as labelled concrete points)"),
 }
 
 PENDING = {}
